@@ -33,7 +33,7 @@ def gen_cases(tier, seed):
                 vals = {str(x): rng.choice(VALS) for x in labs}
                 cases.append({"mode": "rows", "tree": t, "style": rng.choice(styles), "citer": citer, "ml": ml, "vals": vals,
                               "selector": rng.choice(["attr", "callable", "str", "missing"]),
-                              "style_as_class": rng.random() < 0.3})
+                              "style_as_class": rng.random() < 0.3, "embed": len(cases) % 3 == 0})
     nexh = len(cases)
     for _ in range(400 if tier == "quick" else 4000):
         t = gen.random_tree(rng, rng.randint(full + 1, 14))
@@ -45,7 +45,7 @@ def gen_cases(tier, seed):
     for _ in range(300 if tier == "quick" else 2000):
         chain = []
         for _d in range(rng.randint(1, 4)):
-            attrs = {k: rng.choice([1, "v", None, [1, 2], 2.5]) for k in rng.sample(["b", "a", "_hidden", "zz", "Capital", "x1"], rng.randint(0, 4))}
+            attrs = {k: rng.choice([1, "v", None, [1, 2], 2.5]) for k in rng.sample(["b", "a", "_hidden", "zz", "Capital", "x1", "x", "foo", "foo2"], rng.randint(0, 5))}
             chain.append([rng.choice(["n", "top", "sub0", "a b", "x1"]), sorted(attrs.items(), key=lambda kv: rng.random())])
         cases.append({"mode": "repr", "node": rng.random() < 0.6, "sep": rng.choice(["/", ".", "::"]), "chain": chain})
         nrepr += 1
